@@ -288,7 +288,7 @@ Proof.
     try (destr_all H; inversion H; subst; clear H;
          (split; [first [solve [apply clk_ok_refl] | solve [csame]] | intros ? ? ? ? ? Hin; simpl in Hin; intuition discriminate]); fail).
   - (* CNew *)
-    destruct (negb (is_main t) || wused st w); [inversion H; subst; split; [apply clk_ok_refl|intros ? ? ? ? ? []]|].
+    destruct (negb (is_main t) || wused st w || (1000000 <=? w) || (w <? 0)); [inversion H; subst; split; [apply clk_ok_refl|intros ? ? ? ? ? []]|].
     destruct (wh_add st (HPlain w)) as [[st1 wi]|] eqn:E; inversion H; subst; clear H.
     + apply wh_add_clk in E. destruct E as [E1 [E2 E3]]. split; [|intros ? ? ? ? ? [Hin|[]]; discriminate].
       apply clk_ok_same; cbn; auto. intro u. rewrite E2. reflexivity.
